@@ -31,12 +31,12 @@ def shift(ap, k):
 def run(ctx):
     nob, ndis, failing, files = common.obligations(ctx, PROPS)
     base = []
-    for fam, nq, nt in (("core", 60, 600), ("limits", 120, 1200), ("hours", 60, 600), ("coredeps", 40, 400), ("subslot", 40, 400), ("alap", 30, 300), ("yearend", 60, 600), ("bookings", 60, 500)):
+    for fam, nq, nt in (("core", 60, 600), ("limits", 120, 1200), ("hours", 60, 600), ("coredeps", 40, 400), ("subslot", 40, 400), ("alap", 30, 300), ("yearend", 60, 600), ("bookings", 120, 800)):
         base += gens.family(ctx, fam, ctx.n(nq, nt))
     for ap in base:                      # UTC projects: the property is about UTC, drop resource time zones
         for _, n in projects.walk(ap["resources"]):
             n.pop("tz", None)
-    ks = [1, 2, 3, 26, 51, 52, 53, 60, 104, 157, 209, 261, 300]
+    ks = [1, 2, 3, 4, 5, 9, 13, 26, 51, 52, 53, 60, 104, 157, 209, 261, 300]
     shifted, kk = [], []
     for ap in base:
         k = ctx.rng.choice(ks)
@@ -115,7 +115,7 @@ def run(ctx):
         violations.append({"no_input": True, "replay": common.write_replay(ctx, {"property": "C14", "kind": "proof obligation no longer checks; no failing input found", "failing_obligations": failing})})
     cov = {"obligations": nob, "discharged": ndis, "checker_cmd": "tools/coqbuild.sh (coqc 8.16.1 full .vo build) after translate/py2v.py /repo -> coq/Gen", "trusted_base": common.TRUSTED, "files": files,
            "traces_validated_against_impl": stats["compared"], "input_distribution": dict(stats),
-           "rule": "UTC projects (limits on resources/groups/tasks, own hours and shifts, leaves, vacations, holidays, pinned starts, ALAP deadlines; starts incl. year ends, 53-week years, Sundays, times of day) scheduled as given and with every date moved by k weeks, k in {1,2,3,26,51,52,53,60,104,157,209,261,300} (across leap days, year ends and 53-week ISO years); for the year-end projects also the dates printed by 'plan report --csv' of both",
+           "rule": "UTC projects (limits on resources/groups/tasks, own hours and shifts, leaves, vacations, holidays, pinned starts, ALAP deadlines; starts incl. year ends, 53-week years, Sundays, times of day) scheduled as given and with every date moved by k weeks (incl. leaves of one and two calendar months, whose end lands on another day of the month after some shifts), k in {1,2,3,4,5,9,13,26,51,52,53,60,104,157,209,261,300} (across leap days, year ends and 53-week ISO years); for the year-end projects also the dates printed by 'plan report --csv' of both",
            "samples": [{"weeks": kk[0], "project": projects.render(base[0])[:800]}]}
     common.finish(ctx, "proof", cov, violations,
                   ["project end given in days/weeks (month/year durations move the end by a non-week amount by definition)",
